@@ -485,6 +485,14 @@ func mutants(r *gen.Rand, g []*types.Transaction, signers []txw.Signer) []mutant
 			add("link-next-skips-one", c)
 		}
 	}
+	// a member re-signed, unchanged, by a different key (who the member is from)
+	{
+		k := r.Intn(n)
+		c := cp()
+		s := signers[r.Intn(len(signers))]
+		c[k].Sign(types.EncodeSignID(s.TypeID, 0), s.Key(r))
+		add("resign-member-other-key", c)
+	}
 	// header replaced everywhere by another value (consistent among members)
 	{
 		c := cp()
@@ -672,7 +680,7 @@ func scenario(r *gen.Rand, signers []txw.Signer, deep bool) {
 			out.Stat("mutant_passes_check_fails_sign", 1)
 		}
 		// the attacker re-chains the mutant: Check may pass, the signatures must not
-		if deep || r.Chance(1, 3) {
+		if (deep || r.Chance(1, 3)) && m.kind != "resign-member-other-key" {
 			if len(m.txs) >= 2 {
 				rb := opRebuilt(m.txs)
 				if rb != nil && !sameGroup(rb, g) {
